@@ -112,7 +112,7 @@ impl Scenario for C19 {
                 6..=8 => "reg_send",
                 9 | 10 => "exit",
                 11 | 12 => "mon_exit",
-                13 => "rpc_reply",
+                13 => if r.chance(1, 2) { "rpc_reply" } else { "rpc_near_miss" },
                 14 => *r.pick(&["link", "group_leader", "unknown"]),
                 15 | 16 => "tick",
                 17 => "junk_garbage",
@@ -174,7 +174,7 @@ impl Scenario for C19 {
             components_stubbed: &["TCP (SimNet)", "EPMD (stub)", "remote node (scripted peer, independent encoder)"],
             assumptions: &["mid-frame delays stay below the read timeout; only idle gaps are long", "the peer's ticks are what a conforming OTP node sends (zero-length frames at its tick period)"],
             fault_prefixes: &["fault.", "net."],
-            expected_probes: &["probe.c19.delivered_send", "probe.c19.delivered_reg_send", "probe.c19.delivered_exit", "probe.c19.delivered_mon_exit", "probe.c19.rpc_reply_delivered", "probe.c19.dropped_unknown_recipient", "probe.c19.survived_junk", "probe.c19.survived_quiet_period", "probe.c19.deregistered_after_fatal", "probe.c19.reconnected", "probe.c19.checkpoint_ok"],
+            expected_probes: &["probe.c19.delivered_send", "probe.c19.delivered_reg_send", "probe.c19.delivered_exit", "probe.c19.delivered_mon_exit", "probe.c19.rpc_reply_delivered", "probe.c19.dropped_unknown_recipient", "probe.c19.survived_junk", "probe.c19.survived_quiet_period", "probe.c19.deregistered_after_fatal", "probe.c19.reconnected", "probe.c19.checkpoint_ok", "probe.c19.near_miss_not_taken_as_reply"],
         }
     }
 }
@@ -262,6 +262,18 @@ fn build_frame(p: &Plan, k: usize, f: &InFrame, pids: &[Val], rpc_from: &Option<
             }
             let pl = Val::tuple(vec![Val::atom("rex"), payload("rpc_reply", k, f.seed)]);
             exp.rpc_reply = Some(pl.clone());
+            wire::pass_through(&Val::tuple(vec![Val::int(2), Val::atom(""), to]), Some(&pl))
+        }
+        "rpc_near_miss" => {
+            // a SEND to an identifier that differs from the outstanding call's reply identifier in
+            // exactly one field (another incarnation, another serial, a neighbouring number): nobody's
+            let Some(Val::Pid { node, id, serial, creation }) = rpc_from.clone() else { return None };
+            let to = match f.seed % 3 {
+                0 => Val::Pid { node, id, serial, creation: creation.wrapping_add(1) },
+                1 => Val::Pid { node, id, serial: serial.wrapping_add(1), creation },
+                _ => Val::Pid { node, id: id.wrapping_add(1), serial, creation },
+            };
+            let pl = Val::tuple(vec![Val::atom("rex"), payload("near_miss", k, f.seed)]);
             wire::pass_through(&Val::tuple(vec![Val::int(2), Val::atom(""), to]), Some(&pl))
         }
         "link" => wire::pass_through(&Val::tuple(vec![Val::int(1), peer_pid(1), target_pid(f.target)]), None),
@@ -717,6 +729,20 @@ async fn scenario(w: &Arc<World>, p: &Plan) {
                 Ok(Ok(Err(e))) => w.violation("lost-delivery", format!("outstanding rpc failed with {} although the peer replied", e)),
                 _ => w.violation("lost-delivery", "outstanding rpc still pending although the peer replied".to_string()),
             }
+        }
+    } else if healthy {
+        // the peer never replied: the call must still be waiting
+        if rpc_task.is_finished() {
+            match rpc_task.await {
+                Ok(Ok(v)) => w.violation("wrong-delivery", format!("the outstanding rpc returned {} although the peer never replied to it", to_val(&v).short())),
+                Ok(Err(e)) => w.violation("wrong-delivery", format!("the outstanding rpc ended with {} although the connection was healthy and the peer never replied", e)),
+                Err(_) => {}
+            }
+        } else {
+            if p.frames.iter().any(|f| f.kind == "rpc_near_miss") {
+                w.stat("probe.c19.near_miss_not_taken_as_reply");
+            }
+            rpc_task.abort();
         }
     } else {
         rpc_task.abort();
